@@ -496,6 +496,8 @@ func jsonNameProvenance(r *core.Run) {
 			o.Auto("from %s", src)
 		case "oneof.Name":
 			o.Auto("exposed oneof pseudo-property, named from the oneof (%s)", src)
+		case "clone":
+			o.Auto("copy of an existing property (%s)", src)
 		default:
 			o.Fail("property name is derived from %s instead of the field descriptor's JSONName(): names that do not survive the snake/camel conversion read back differently from the source", core.ExprStr(val))
 		}
@@ -534,6 +536,16 @@ func jsonNameProvenance(r *core.Run) {
 
 func jsonNameSource(info *types.Info, e ast.Expr) (string, string) {
 	e = core.Unparen(e)
+	// the name of another ObjectProperty: a clone (flattened children seen from the parent)
+	if s, ok := e.(*ast.SelectorExpr); ok && s.Sel.Name == "JSONName" {
+		t := info.TypeOf(s.X)
+		if p, isPtr := t.(*types.Pointer); isPtr {
+			t = p.Elem()
+		}
+		if t != nil && core.TypeStr(t) == "lib/j5schema.ObjectProperty" {
+			return core.ExprStr(e), "clone"
+		}
+	}
 	if c, ok := e.(*ast.CallExpr); ok && len(c.Args) == 1 {
 		if core.IsConversion(info, c) {
 			return jsonNameSource(info, c.Args[0])
